@@ -4,7 +4,10 @@ import (
 	"errors"
 	"fmt"
 	"io"
+	"net"
 	"net/http"
+	"os"
+	"syscall"
 )
 
 // ErrInjectedRead / ErrInjectedWrite are the fail-stop faults of the doubles.
@@ -17,6 +20,9 @@ var (
 	ErrInjectedReadEOF = fmt.Errorf("sim: injected read error, connection closed early: %w", io.EOF)
 	// ErrInjectedWriteEOF: a write FAILURE whose chain contains io.EOF (the peer went away)
 	ErrInjectedWriteEOF = fmt.Errorf("sim: injected write error, peer closed the connection: %w", io.EOF)
+	// what a TCP connection returns when the client has gone away
+	ErrInjectedEPIPE      = &net.OpError{Op: "write", Net: "tcp", Err: os.NewSyscallError("write", syscall.EPIPE)}
+	ErrInjectedECONNRESET = &net.OpError{Op: "write", Net: "tcp", Err: os.NewSyscallError("write", syscall.ECONNRESET)}
 )
 
 // All methods of the doubles are //go:norace and use only built-ins on their own state,
